@@ -439,23 +439,28 @@ def run(ctx):
                     continue
                 del s2[c[-1]]
             corrupted.append((mode, s2))
-            break
-        else:
-            if not ctx.violations:
-                unapplied.append(mode)
+            if sum(1 for m, _ in corrupted if m == mode) >= 3:
+                break
+        if not any(m == mode for m, _ in corrupted) and not ctx.violations:
+            unapplied.append(mode)
     # one TLC run over all of them (TraceSignal_skip.cfg: a scenario may be passed over; the ones that are
     # behaviours of the specification are those with a verdict line) - plus one intact scenario as control
     if cleanall and corrupted:
         vs = tlc_skip(ctx, [c for _, c in corrupted] + [cleanall[0]], "selftest")
         if vs[-1] is None or vs[-1][0]:
             raise Infra("trace self-test: the intact control scenario was not accepted")
+        # a corruption is applied to up to three scenarios: in a particular scenario the corrupted trace may still
+        # be a behaviour (the vanished event raced something); the mode counts as rejected if one of them is
+        verdicts = {}
         for (mode, c), v in zip(corrupted, vs):
+            verdicts.setdefault(mode, []).append((v is None or v[0], c))
+        for mode, lst in verdicts.items():
             tried += 1
-            if v is None or v[0]:
+            if any(ok for ok, _ in lst):
                 caught += 1
             else:
                 missed.append(mode)
-                log("self-test %s accepted:\n%s" % (mode, "\n".join(c[:400])))
+                log("self-test %s accepted in %d scenario(s):\n%s" % (mode, len(lst), "\n".join(lst[0][1][:400])))
     # on a tree without violations every corruption finds a scenario to apply to (the hunted witnesses see
     # to that); with violations around, the clean scenarios may be too few for some
     # (a corruption needs a clean scenario of the right shape: the hunted witnesses provide one for each
